@@ -8,7 +8,7 @@ CLAIMS = {
  "C14": ("Lean 4 theorems over models of Glob / WalkDir / ReadDir / the existence helpers built on the MemFS model: SkipDir and SkipAll never reach the caller, a missing root is reported to the callback once, helpers answer what Stat implies, patterns without meta characters match iff Lstat succeeds, malformed patterns are reported; the models are tied to /repo by differential runs (patterns with * ? classes escapes and malformed forms, callbacks acting at every visit index) and MemFS is compared with filepath.Glob / filepath.WalkDir / os.ReadDir on an identical tmpfs tree.",
          "Set-level specs of Glob and WalkDir (walk_spec, glob_spec) are not proved; equality with the standard library is an oracle run.",
          "Lean 4 proof (case analysis) + differential correspondence with impl and path/filepath + os", "§3 C14"),
- "C17": ("Lean 4 theorems: the SetOSType decision table stated outright (tag on: every requested type honoured whatever the host; tag off: only the host type), separator by type; tied to /repo by the construction matrix {MemFS, OrefaFS} × {Unknown, Linux, Windows} run from a tag-on and a tag-off harness binary. Agreement of the Windows-typed and Linux-typed emulations (success/failure call by call, isomorphic trees) is an oracle run in lockstep on portable histories, with recorded divergence classes.",
+ "C17": ("Lean 4 theorems: the SetOSType decision table stated outright (tag on: every requested type honoured whatever the host; tag off: only the host type), separator by type; tied to /repo by the construction matrix {MemFS, OrefaFS} × {Unknown, Linux, Windows} run from a tag-on and a tag-off harness binary. Volume management: theorems over the model Avfs.Volumes (a successful VolumeAdd makes an empty volume, VolumeDelete removes it and nothing else, delete-then-add gives an empty volume, VolumeList = the existing volumes once each), tied by corr volumes (every sequence of up to 3/4 calls). Agreement of the Windows-typed and Linux-typed emulations (success/failure call by call, isomorphic trees) is an oracle run in lockstep on portable histories, with recorded divergence classes.",
          "os_agreement is not a theorem (the Lean file-system models are Linux-only); volume management not exercised.",
          "Lean 4 proof (decision table) + lockstep differential of the two emulations", "§3 C17"),
  "C06": ("Lean 4 theorems, any number of threads, calls and steps: (1) if every access happens inside critical sections on one lock held exclusively, sections of different threads never interleave (serial execution in acquisition order); (2) two-phase operations (unlocked walk, commit under the parent's lock) whose commit is the sequential specification on the state it finds are linearizable in the order of their decisive steps, program order and real time kept (C06_two_phase_linearizable), instantiated for MemFS Mkdir / exclusive create / Remove on leaf names of directories no concurrent call removes or renames. The tie to the source is REGENERATED on every run: lock facts and commit-shape facts (walk, commit lock, look-up under the lock before each mutation, no use of what the walk captured) are extracted by lockx and decided by the kernel; the stale-commit sites that remain are exactly the recorded findings; a kernel-checked counter-schedule documents the repaired Remove defect. A linearizability search engine (all sequential interleavings as reference, lock-hold amplifier) runs the proved classes as violations-with-input and the recorded classes as known findings.",
